@@ -89,6 +89,8 @@ unsigned vf_preemptions_taken(void);
 size_t vf_log_count(void);
 const char *vf_log_line(size_t i);                /* i counted from the oldest retained */
 unsigned long vf_log_total(void);
+size_t vf_errlog_count(void);                     /* last (<=32) lines with priority <= LOG_ERR */
+const char *vf_errlog_line(size_t i);
 unsigned long vf_log_errors(void);                /* lines with priority <= LOG_ERR */
 
 /* ---- virtual files ------------------------------------------------------ */
